@@ -80,7 +80,7 @@ example (cfg : Cfg) : Val.TyOK cfg exV := by
     · constructor
     · exact Val.TyOK.typ _ (by simp [Ty.TF]) (by simp [Ty.WF]))
 example (cfg : Cfg) : asg cfg true exA exB = true := by
-  simp [exA, exB, asg, asgRecv, asgAllR, asgAnyL, sameNullary, Rng.sub, tupleSize, Rng.exact, isStringFamily]
+  simp [exA, exB, asg, asgRecv, asgAllR, asgAnyL, tupZip, sameNullary, Rng.sub, tupleSize, Rng.exact, isStringFamily]
 example (cfg : Cfg) : inst cfg true exB exV = true := by
   simp [exB, exV, inst, instZip, tupleSize, Rng.exact, Rng.contains, asg, asgRecv, sameNullary]
 
